@@ -94,7 +94,7 @@ def run(tier):
                 'distinct non-trivial = distinct (class, scenario, point, region) at which the request really landed')
     scen_one = ['loop', 'short', 'raise', 'with'] if tier == 'thorough' else ['loop', 'short', 'raise']
     scen_pers = ['p2', 'pfail'] if tier == 'thorough' else ['p2']
-    cases, traces = lp.run_matrix(tier, lp.ALL, scen_one, scen_pers, 'c03', extra_repeats=(0 if tier == 'thorough' else 4))
+    cases, traces = lp.run_matrix(tier, lp.ALL, scen_one, scen_pers, 'c03', extra_repeats=(0 if tier == 'thorough' else 2), per_class_cap=(None if tier == 'thorough' else 70))
     for (cls, scen), (tr, res) in traces.items():
         chk.count('recorded_points_total', sum(1 for e in tr if e.get('kind') in ('start', 'resume', 'jump', 'cret')))
         if not tr:
@@ -102,6 +102,12 @@ def run(tier):
     for c in cases:
         judge(chk, c)
     lp.require_classes(chk, cases, lp.ALL, 'terminate-matrix')
+    # a result larger than the pipe buffer, with multiprocessing/connection.py monitored: landing between
+    # the header and the body of the send
+    cases2, _ = lp.run_matrix(tier, ['ProcessWorker'], ['bigret'], [], 'c03big', extra_repeats=0, wide=True)
+    for c in cases2:
+        judge(chk, c)
+    chk.count('large_result_send_cases', len(cases2))
     chk.extra['landing_functions'] = {k: sorted(v) for k, v in chk.extra.get('landing_functions', {}).items()}
     idle_cases(chk, tier)
     chk.assumptions = ['CPython delivers asynchronous exceptions only at eval-breaker polls; the enumerated events are those polls',
